@@ -34,7 +34,7 @@ class Contract:
                  invariants=None, serves=(), trusted=False, module=None, locals=None,
                  inline=False, note='', cut_before=None, kwparams=None, pure=False,
                  effects_exc=(), vararg=None, assume_after=None, abstract=None,
-                 ghost_in_body=None):
+                 ghost_in_body=None, observe=(), generator=False, defaults=None, kwarg=None, kwarg_keys=()):
         self.name = name
         self.params = dict(params or {})
         self.returns = returns
@@ -59,6 +59,10 @@ class Contract:
         self.assume_after = dict(assume_after or {})   # {stmt source prefix: [facts]} - listed as assumptions
         self.abstract = dict(abstract or {})   # {stmt source prefix: replacement ghost statements}
         self.ghost_in_body = dict(ghost_in_body or {})  # {stmt source prefix: ghost statements run after it}
+        self.observe = list(observe)           # spec expressions evaluated under a counter-model (for replay)
+        self.generator = generator
+        self.kwarg, self.kwarg_keys = kwarg, list(kwarg_keys)
+        self.defaults = dict(defaults or {})
 
     @property
     def cls(self):
